@@ -161,14 +161,15 @@ theorem nil_mask_is_std_read (P : Prog) (cfg : Sites) (sidx : Nat) (bs : Bytes) 
 /-! ## required and non-required fields -/
 
 /-- **a required field is still written**, whatever the mask says: without `field_mask_zero_required` with its current value (the mask
-is not even asked for base types; for the others `fm, _ := Field(id)` only supplies the sub-mask), with the option and a rejecting
-mask with the zero value `ZeroWriter` emits. -/
+is not even asked for base types; for the others `fm, _ := Field(id)` only supplies the sub-mask `reqMask T q` — as found the one
+`Field(id)` returned even when it REJECTED the field, which hollows out a black-listed required struct, see docs/C13.md; repaired: nil),
+with the option and a rejecting mask with the zero value `ZeroWriter` emits. -/
 theorem required_still_written (P : Prog) (T : Tpl) (O : Opts) (cfg : Sites) (sm : MaskOpt) (env : Env) (j : Nat)
     (f : FieldDef) (fs : List FieldDef) (v : GoVal) (vs : List GoVal) (ws : List (Nat × MW))
     (hr : f.req = .required) (h : toMFields P T O cfg sm env j (f :: fs) (v :: vs) = .ok ws) :
     ∃ w rest, ws = (pat 16 f.id, w) :: rest ∧ toMFields P T O cfg sm env (j + 1) fs vs = .ok rest ∧
       (O.zeroReq = false → ∃ q, (if f.ty.isBase then (.ok (.none, true) : Res (MaskOpt × Bool)) else qField cfg sm f.id) = .ok q ∧
-          toM P T O cfg [] (if f.ty.isStruct then childMask O (env.get j) q.1 else q.1) f.ty v = .ok w) ∧
+          toM P T O cfg [] (if f.ty.isStruct then childMask O (env.get j) (reqMask T q) else reqMask T q) f.ty v = .ok w) ∧
       (O.zeroReq = true → ∀ m, qField cfg sm f.id = .ok (m, false) → w = zeroM f.ty) := by
   simp only [toMFields, hr] at h
   simp only [show (Req.required = Req.optional) = False from by simp, decide_false, Bool.false_and, Bool.false_eq_true, if_false,
